@@ -3,8 +3,15 @@
 //! note: inbound_payment::verify: what the node reads out of the authenticated 16 bytes of a payment secret -- the minimum amount is the first 8 bytes without the three method bits, the expiry is the last 8 bytes, or the last 6 when the first two of them carry a custom final CLTV delta -- so the amount and expiry tests (u04b) run on exactly the numbers create() packed (the Kani harness h_info_bytes proves that construct_info_bytes is the inverse of this byte layout)
 //! trusted: R15 (deep slices): verify: (a) the statements that copy the decrypted info bytes into the amount and expiry buffers and clear the method bits (between the decryption and the HMAC test), (b) the match that, for the two custom-CLTV methods, reads the delta and clears the two bytes it occupies, and the two conversions to numbers, verbatim as one function of (info_bytes, payment_type_res); the HMAC authentication (unit u04c), the metadata decryption and the final amount / expiry tests (unit u04b) are the rest of verify
 //! trusted: R8: std byte-array plumbing Verus has no specification for is routed through external_body wrappers with the std meaning: `dst.copy_from_slice(&src[..N])` / `(&src[N..])` -> copy_prefix / copy_suffix (dst becomes the first N / the remaining bytes of src), `u64::from_be_bytes(x.into())` / `u64::from_be_bytes(x.try_into().unwrap())` -> be64 (big-endian value, as the uninterpreted be64_spec of the 8 bytes: the contract is stated on the byte sequences, no arithmetic is trusted); min_final_cltv_expiry_delta_from_info is external_body (its value is checked by h_info_bytes on the real function)
+//! trusted: assume_specification for core::cmp::max / core::cmp::min (std definitions): present in every unit so that a change that introduces them is verified instead of being rejected by the tool
 use vstd::prelude::*;
 verus! {
+use vstd::std_specs::cmp::*;
+use core::cmp;
+pub assume_specification<T: core::cmp::Ord>[core::cmp::max::<T>](a: T, b: T) -> (r: T)
+    ensures T::obeys_cmp_spec() ==> r == (if b.cmp_spec(&a) == core::cmp::Ordering::Less { a } else { b });
+pub assume_specification<T: core::cmp::Ord>[core::cmp::min::<T>](a: T, b: T) -> (r: T)
+    ensures T::obeys_cmp_spec() ==> r == (if b.cmp_spec(&a) == core::cmp::Ordering::Less { b } else { a });
 //@const lightning/src/ln/inbound_payment.rs INFO_LEN AMT_MSAT_LEN
 pub enum Method { LdkPaymentHash, UserPaymentHash, LdkPaymentHashCustomFinalCltv, UserPaymentHashCustomFinalCltv, SpontaneousPayment }
 pub uninterp spec fn be64_spec(b: Seq<u8>) -> u64;
